@@ -497,7 +497,7 @@ LAWS = {"engine": "laws", "build": "all", "args": ([], []), "timeout": (120, 120
 PLANS = {
     "C01": [M(["general", "blocking", "notime"], 11, 100), S(["traffic", "backpressure", "refs"], 18000, 150000, mode="diff"), S(["timeouts", "backpressure"], 12000, 100000, seed_off=2000), S(["traffic", "backpressure", "kill"], 9000, 60000, build="none", seed_off=1000)],
     "C02": [M(["general", "blocking"], 6, 60), S(["traffic", "backpressure", "idle"], 18000, 150000, mode="diff"), S(["traffic", "backpressure"], 9000, 60000, build="none", seed_off=1000)],
-    "C03": [M(["tightrace"], 12, 150, fp_quick=True), M(["deathrace", "general", "blocking", "notime", "abort"], 13, 110), M(["reentrant", "undriven"], 5, 20, seed_off=21), S(["traffic", "lifecycle", "kill", "faults", "timeouts"], 12000, 100000, mode="diff"), S(["kill", "lifecycle", "backpressure"], 9000, 60000, build="none", seed_off=1000)],
+    "C03": [M(["tightrace"], 12, 150, fp_quick=True), M(["deathrace", "general", "blocking", "notime", "abort"], 13, 110), M(["reentrant", "undriven", "dropspin"], 7, 30, seed_off=21), S(["traffic", "lifecycle", "kill", "faults", "timeouts"], 12000, 100000, mode="diff"), S(["kill", "lifecycle", "backpressure"], 9000, 60000, build="none", seed_off=1000)],
     "C04": [M(["dropspin"], 3, 20, seed_off=4), S(["lifecycle", "kill", "faults"], 18000, 150000), S(["lifecycle", "kill"], 9000, 60000, build="none", seed_off=1000)],
     "C05": [LAWS, M(["dropspin"], 4, 30), S(["lifecycle", "faults", "kill"], 18000, 150000), S(["lifecycle", "faults"], 9000, 60000, build="none", seed_off=1000)],
     "C06": [M(["general", "deathrace"], 6, 60), S(["kill", "backpressure", "lifecycle"], 18000, 150000, mode="diff"), S(["kill", "refs"], 12000, 60000, build="none", seed_off=1000)],
@@ -512,9 +512,9 @@ PLANS = {
     "C15": [MIRI, M(["dlrace"], 6, 40, seed_off=31), S(["deadlock"], 48000, 400000, perts=(2, 4), seed_off=500), S(["deadlock"], 12000, 100000, mode="erased", seed_off=800), S(["traffic", "faults"], 9000, 60000)],
     "C16": [M(["blocking", "notime"], 7, 40), S(["traffic", "refs", "timeouts", "kill", "lifecycle", "backpressure", "idle", "faults"], 7500, 60000, mode="diff"), S(["deadlock"], 6000, 40000, mode="diff", seed_off=700), S(["refs", "traffic", "kill"], 6000, 40000, mode="diff", build="none", seed_off=1000)],
     "C20": [MIRI, M(["readers"], 6, 60), M(["slow"], 2, 20, seed_off=5), M(["metricsrace", "abort"], 6, 40, seed_off=6), {"engine": "gen", "actors": (16, 120), "rounds": (1, 2), "skip_negatives": True}, S(["metrics", "traffic", "kill", "faults"], 15000, 120000)],
-    "C17": [M(["blocking"], 8, 90), M(["general"], 6, 60, seed_off=77), M(["hogged", "dropsend"], 8, 50, seed_off=13)],
+    "C17": [M(["blocking"], 8, 90), M(["general"], 6, 60, seed_off=77), M(["hogged", "dropsend", "hookblocking"], 11, 60, seed_off=13)],
     "C19": [M(["blocking", "general"], 6, 40), {"engine": "gen", "actors": (60, 400), "rounds": (1, 3)}, S(["traffic", "faults"], 9000, 60000)],
-    "C18": [{"engine": "mtdiff", "profiles": ["notime"], "args": (["--profiles", "notime", "--secs", 3], ["--profiles", "notime", "--secs", 20]), "timeout": (240, 600)}, {"engine": "featdiff", "profiles": ["traffic", "backpressure", "lifecycle", "kill", "refs", "idle", "timeouts", "faults", "metrics", "overlap"], "count": (1500, 20000)}],
+    "C18": [{"engine": "mtdiff", "profiles": ["notime", "hookblocking"], "args": (["--profiles", "notime,hookblocking", "--secs", 5], ["--profiles", "notime,hookblocking", "--secs", 30]), "timeout": (240, 600)}, {"engine": "featdiff", "profiles": ["traffic", "backpressure", "lifecycle", "kill", "refs", "idle", "timeouts", "faults", "metrics", "overlap"], "count": (1500, 20000)}],
 }
 
 # minimum number of non-vacuous evaluations of the key clauses below which a run is inconclusive
